@@ -42,7 +42,8 @@ claim("C01", "symx",
       "translation and rational rotations, with the input vertices in several orders, plus a tetrahedron with all 12 coordinates free; volume, total and "
       "per-face area, centroid, face centroids and the inertia tensor are compared with signed-tetrahedron sums over an independently computed facet list; "
       "z3 shows every residual cannot be non-zero on the explored paths. Bounded: base set, path budget (the sorting code forks on the placement), "
-      "unrefuted alternatives are counted in the evidence.",
+      "unrefuted alternatives are counted in the evidence. In addition all 290 tabulated solids (4-120 vertices; index enumerated by z3 until unsat) are built "
+      "natively from permuted, rotated, off-origin copies of their vertices and compared with an independent brute-force float reference (1e-9).",
       "reals not floats (A1); qhull and kabsch as contract stubs; z3/sympy trusted",
       "DESIGN.md §6 C01")
 claim("C06", "symx",
